@@ -225,7 +225,12 @@ func TestC16(t *testing.T) {
 		if base > 3*time.Millisecond {
 			base = 3 * time.Millisecond
 		}
+		fast := vt.Bool(c["fast"]) // only yield between calls: many loads racing with Close
 		pause := func(r *rand.Rand) {
+			if fast {
+				runtime.Gosched()
+				return
+			}
 			switch r.Intn(4) {
 			case 0:
 				runtime.Gosched()
@@ -310,16 +315,21 @@ func TestC16(t *testing.T) {
 			if vt.Bool(tc["closer"]) {
 				closes = 1 + rnd.Intn(3)
 			}
-			run(vt.Case{"src": "tlc", "readers": vt.Int(tc["readers"]), "calls": vt.Int(tc["calls"]), "idle_us": idle, "closes": closes, "aliasing": rep%3 == 2, "sseed": rnd.Int63n(1 << 40)})
+			run(vt.Case{"src": "tlc", "readers": vt.Int(tc["readers"]), "calls": vt.Int(tc["calls"]), "idle_us": idle, "closes": closes, "aliasing": rep%3 == 2, "fast": false, "sseed": rnd.Int63n(1 << 40)})
 		}
 	}
-	n := vt.Pick(40, 300)
+	n := vt.Pick(60, 300)
 	for i := 0; i < n; i++ {
 		closes := 0
 		if rnd.Intn(2) == 0 {
 			closes = 1 + rnd.Intn(30)
 		}
-		run(vt.Case{"src": "rand", "readers": 1 + rnd.Intn(vt.Pick(4, 8)), "calls": 1 + rnd.Intn(vt.Pick(12, 25)),
-			"idle_us": []int{100, 300, 1000, 3000}[rnd.Intn(4)], "closes": closes, "aliasing": i%3 == 2, "sseed": rnd.Int63n(1 << 40)})
+		readers, calls := 1+rnd.Intn(vt.Pick(4, 8)), 1+rnd.Intn(vt.Pick(12, 25))
+		fast := i%4 == 1
+		if fast {
+			closes = readers * calls
+		}
+		run(vt.Case{"src": "rand", "readers": readers, "calls": calls,
+			"idle_us": []int{100, 300, 1000, 3000}[rnd.Intn(4)], "closes": closes, "aliasing": i%3 == 2, "fast": fast, "sseed": rnd.Int63n(1 << 40)})
 	}
 }
